@@ -89,6 +89,14 @@ class Method:
 
         return ft.partial(self.method, *method_args, **method_kwargs)
 
+    @property
+    def excluded_params(self) -> List[str]:
+        """
+        Method parameter names a caller can not pass (to be skipped by specification extractors).
+        """
+
+        return [self.context] if self.context else []
+
     def copy(self, **kwargs: Any) -> 'Method':
         cls_kwargs = dict(name=self.name, context=self.context, positional=self.positional)
         cls_kwargs.update(kwargs)
@@ -134,6 +142,14 @@ class ViewMethod(Method):
         method_args = pop_positional_only(method, method_params)
 
         return ft.partial(method, *method_args, **method_params)
+
+    @property
+    def excluded_params(self) -> List[str]:
+        # the context is passed to the view constructor, the first parameter is bound to the view instance
+        if isinstance(inspect.getattr_static(self.view_cls, self.method_name), (staticmethod, classmethod)):
+            return []
+
+        return list(inspect.signature(self.method).parameters)[:1]
 
     def copy(self, **kwargs: Any) -> 'ViewMethod':
         cls_kwargs = dict(name=self.name, context=self.context, positional=self.positional)
